@@ -289,8 +289,17 @@ open World
 @[noleak] theorem threadDone_noLeak (w : World) : NoLeak w.threadDone := by
   unfold World.threadDone; noleak
 
-@[noleak] theorem lazyGet_noLeak (w : World) (z : Nat) : NoLeak (w.lazyGet z) := by
-  unfold World.lazyGet; noleak
+@[noleak] theorem lazyRead_noLeak (w : World) (sv : LazyVal) : NoLeak (w.lazyRead sv) := by
+  unfold World.lazyRead; noleak
+
+@[noleak] theorem lazyStatics_noLeak (w : World) : NoLeak w.lazyStatics := by
+  unfold World.lazyStatics; noleak
+
+@[noleak] theorem lazyInitFinish_noLeak (w : World) (z id : Nat) : NoLeak (w.lazyInitFinish z id) := by
+  unfold World.lazyInitFinish; noleak
+
+@[noleak] theorem lazyStage_noLeak (w : World) (c : TCtl) (z : Nat) : NoLeak (w.lazyStage c z) := by
+  unfold World.lazyStage; noleak
 
 @[noleak] theorem wakerClone_noLeak (w : World) (a : Nat) : NoLeak (w.wakerClone a) := by
   unfold World.wakerClone; noleak
@@ -306,11 +315,18 @@ open World
     NoLeak (w.wakeStage c f b) := by
   unfold World.wakeStage; noleak
 
+theorem dropPass_noLeak (w : World) (c : TCtl) (base : Nat) (done : World → Except Panic World)
+    (hd : ∀ w, NoLeak (done w)) : NoLeak (w.dropPass c base done) := by
+  unfold World.dropPass; noleak
+  all_goals exact hd _
+
 @[noleak] theorem finishThread_noLeak (w : World) (c : TCtl) : NoLeak (w.finishThread c) := by
   unfold World.finishThread; noleak
+  exact dropPass_noLeak _ _ _ _ (by intro w; noleak)
 
 @[noleak] theorem runEpilogue_noLeak (w : World) (c : TCtl) : NoLeak (w.runEpilogue c) := by
   unfold World.runEpilogue; noleak
+  all_goals exact dropPass_noLeak _ _ _ _ (by intro w; noleak)
 
 @[noleak] theorem runOp_noLeak (w : World) (c : TCtl) (op : Op) : NoLeak (w.runOp c op) := by
   cases op <;> (simp only [World.runOp] <;> noleak)
